@@ -161,63 +161,47 @@ func wireFixture() error {
 			return
 		}
 		wirePs = make([]*binfx.Proc, len(wireProcs))
-		var wg sync.WaitGroup
-		var mu sync.Mutex
-		for i, wp := range wireProcs {
-			wg.Add(1)
-			go func(i int, wp wireProc) {
-				defer wg.Done()
-				extra := []string{
-					"--api.cert-filename=" + p.serverCertFile, "--api.key-filename=" + p.serverKey, "--api.ca-filename=" + p.caFile,
-					"--replication.cert-filename=" + p.serverCertFile, "--replication.key-filename=" + p.serverKey, "--replication.ca-filename=" + p.caFile,
-				}
-				if wp.apiCN != "" {
-					extra = append(extra, "--api.allowed-cn="+wp.apiCN)
-				}
-				if wp.apiHost != "" {
-					extra = append(extra, "--api.allowed-hostname="+wp.apiHost)
-				}
-				// the replication endpoint's name rules have no command-line flag; they are read from the configuration file
-				cfgYAML := ""
-				if wp.replCN != "" {
-					cfgYAML = "replication:\n  allowed-cn: \"" + wp.replCN + "\"\n"
-				}
-				if wp.replHost != "" {
-					cfgYAML = "replication:\n  allowed-hostname: \"" + wp.replHost + "\"\n"
-				}
-				if wp.clientCertAuth {
-					extra = append(extra, "--api.client-cert-auth=true", "--replication.client-cert-auth=true")
-				}
-				scheme := "https"
-				if wp.scheme != "" {
-					scheme = wp.scheme
-				}
-				proc, err := binfx.Start(binfx.Opts{Role: "leader", APIScheme: scheme, ReplScheme: scheme, Extra: extra, ConfigYAML: cfgYAML})
-				mu.Lock()
-				defer mu.Unlock()
-				if err != nil && wireErr == nil {
-					wireErr = err
-				}
-				wirePs[i] = proc
-			}(i, wp)
-		}
-		wg.Wait()
-		if wireErr != nil {
-			return
-		}
 		// readiness: a certificate that satisfies every rule (trusted CA, right CN, every allowed name as SAN) is served on both endpoints
 		good, _, err := p.mint(CertSpec{Issuer: "trusted", CN: goodCN, DNS: []string{"node7.regatta.internal"}, IPs: []string{"10.1.2.3"}, Validity: "valid", EKU: "client"})
 		if err != nil {
 			wireErr = err
 			return
 		}
-		for i, proc := range wirePs {
+		startOne := func(i int, wp wireProc) (*binfx.Proc, error) {
+			extra := []string{
+				"--api.cert-filename=" + p.serverCertFile, "--api.key-filename=" + p.serverKey, "--api.ca-filename=" + p.caFile,
+				"--replication.cert-filename=" + p.serverCertFile, "--replication.key-filename=" + p.serverKey, "--replication.ca-filename=" + p.caFile,
+			}
+			if wp.apiCN != "" {
+				extra = append(extra, "--api.allowed-cn="+wp.apiCN)
+			}
+			if wp.apiHost != "" {
+				extra = append(extra, "--api.allowed-hostname="+wp.apiHost)
+			}
+			// the replication endpoint's name rules have no command-line flag; they are read from the configuration file
+			cfgYAML := ""
+			if wp.replCN != "" {
+				cfgYAML = "replication:\n  allowed-cn: \"" + wp.replCN + "\"\n"
+			}
+			if wp.replHost != "" {
+				cfgYAML = "replication:\n  allowed-hostname: \"" + wp.replHost + "\"\n"
+			}
+			if wp.clientCertAuth {
+				extra = append(extra, "--api.client-cert-auth=true", "--replication.client-cert-auth=true")
+			}
+			scheme := "https"
+			if wp.scheme != "" {
+				scheme = wp.scheme
+			}
+			proc, err := binfx.Start(binfx.Opts{Role: "leader", APIScheme: scheme, ReplScheme: scheme, Extra: extra, ConfigYAML: cfgYAML})
+			if err != nil {
+				return nil, err
+			}
 			for _, repl := range []bool{false, true} {
 				deadline := time.Now().Add(30 * time.Second)
 				for {
 					if !proc.Alive() {
-						wireErr = fmt.Errorf("tls process %d exited during start: %v\n%s", i, proc.ExitErr(), proc.LogTail(2000))
-						return
+						return nil, fmt.Errorf("tls process %d exited during start: %v\n%s", i, proc.ExitErr(), proc.LogTail(2000))
 					}
 					err := wireCall(p, proc, repl, good, 2*time.Second)
 					if err == nil {
@@ -229,13 +213,37 @@ func wireFixture() error {
 						break
 					}
 					if time.Now().After(deadline) {
-						wireErr = fmt.Errorf("tls process %d (replication endpoint=%v) not ready: %v\n%s", i, repl, err, proc.LogTail(2000))
-						return
+						proc.Kill()
+						return nil, fmt.Errorf("tls process %d (replication endpoint=%v) not ready: %v\n%s", i, repl, err, proc.LogTail(2000))
 					}
 					time.Sleep(30 * time.Millisecond)
 				}
 			}
+			return proc, nil
 		}
+		var wg sync.WaitGroup
+		var mu sync.Mutex
+		for i, wp := range wireProcs {
+			wg.Add(1)
+			go func(i int, wp wireProc) {
+				defer wg.Done()
+				var proc *binfx.Proc
+				var err error
+				// a process that exits while starting has most likely lost one of its freshly picked ports to another process: again
+				for attempt := 0; attempt < 4; attempt++ {
+					if proc, err = startOne(i, wp); err == nil {
+						break
+					}
+				}
+				mu.Lock()
+				defer mu.Unlock()
+				if err != nil && wireErr == nil {
+					wireErr = err
+				}
+				wirePs[i] = proc
+			}(i, wp)
+		}
+		wg.Wait()
 	})
 	return wireErr
 }
